@@ -282,6 +282,9 @@ pub fn run_schedule<K: HKey>(
     }
     let cas = st.cas.clone().expect("open");
     let stats: Option<Arc<OrphanStats<K>>> = st.stats.take().map(Arc::new);
+    // the order in which the clean-up routines will visit the orphans (directory order, not plant order)
+    let orph_order: Vec<String> =
+        stats.as_ref().map_or(vec![], |s| s.orphaned_blobs.iter().map(|h| st.u.name_of_hash(h.as_bytes())).collect());
     let u = Arc::new(Universe::<K>::new(&cfg.kt));
     let names = names_of(&u);
     let n = progs.len();
@@ -325,7 +328,7 @@ pub fn run_schedule<K: HKey>(
     }
     let timeout = Duration::from_millis(1500);
     sched.wait_parked(Duration::from_secs(5));
-    let mut events = vec![json!({"ev": "init", "obs": snapshot(&cas, &u, &root, &names)})];
+    let mut events = vec![json!({"ev": "init", "orph": orph_order, "obs": snapshot(&cas, &u, &root, &names)})];
     let mut choices: Vec<(Vec<usize>, usize)> = vec![];
     let mut stuck: Vec<usize> = vec![];
     let mut last: Option<usize> = None;
